@@ -117,6 +117,20 @@ def install():
                     v1 = np.array(stochastic_path.value(), dtype=float, copy=True)
                     v2 = np.array(stochastic_path.value(), dtype=float, copy=True)
                     parts = rec["diff"] + rec["jump"] + (rec["drift"] if dr is not None else 0.0)
+                    shipped = {}
+                    try:
+                        import copy as _copy
+
+                        from . import simpool as _sp
+
+                        for how, make in (("pool-pickler", lambda: _sp._loads(_sp._dumps(stochastic_path))),
+                                          ("deepcopy", lambda: _copy.deepcopy(stochastic_path))):
+                            q = make()
+                            vq = np.array(q.value(), dtype=float)
+                            shipped[how] = bool(type(q) is type(stochastic_path) and vq.shape == v1.shape and np.array_equal(vq, v1))
+                    except Exception as e:
+                        shipped["error"] = type(e).__name__
+                    rec["shipped"] = shipped
                     rec["reads"] = {"same": bool(v1.shape == v2.shape and np.array_equal(v1, v2)),
                                     "adds_up": bool(v1.shape == np.shape(parts) and
                                                     np.allclose(v1, parts, rtol=1e-12, atol=1e-12 * (1.0 + np.max(np.abs(parts), initial=0.0))))}
